@@ -1224,4 +1224,58 @@ theorem exported_file_not_legacy (sw ver : List Char) : legacyExposure (software
 
 example : legacyExposure (softwareOut "Bluelake 2.5".toList "1.5.0".toList) false = true := by decide
 
+/-! ## Alignment is applied once: the description keys under export and re-export -/
+
+
+/-- Exporting an aligned stack marks the matrices as applied: on re-reading (whatever is requested) no alignment is
+    performed a second time. -/
+theorem exported_alignment_is_applied (keys : List (List Char)) (h : alignStatus true keys = .ready) (req2 : Bool) :
+    alignStatus true (forExportKeys true true keys) = .applied ∧
+      doAlignment req2 (alignStatus true (forExportKeys true true keys)) = false := by
+  have hc := ((ready_iff true keys).mp h).2
+  have hs : alignStatus true (forExportKeys true true keys) = .applied := by
+    unfold forExportKeys doAlignment
+    rw [h, status_addPylake]
+    simp only [beq_self_eq_true, Bool.and_self, if_true]
+    exact status_renamed keys hc
+  refine ⟨hs, ?_⟩
+  rw [hs]; unfold doAlignment; rfl
+
+/-- The description keys are a fixed point of re-export (same `align` request). -/
+theorem for_export_fixed_point (rgb req : Bool) (keys : List (List Char)) :
+    forExportKeys rgb req (forExportKeys rgb req keys) = forExportKeys rgb req keys := by
+  by_cases hd : doAlignment req (alignStatus rgb keys) = true
+  · have hready : alignStatus rgb keys = .ready := by
+      unfold doAlignment at hd
+      rw [Bool.and_eq_true] at hd
+      exact eq_of_beq hd.1
+    obtain ⟨hrgb, hc⟩ := (ready_iff rgb keys).mp hready
+    subst hrgb
+    have hreq : req = true := by
+      unfold doAlignment at hd; rw [Bool.and_eq_true] at hd; exact hd.2
+    subst hreq
+    have h2 := (exported_alignment_is_applied keys hready true).2
+    have hk : ∃ k0, forExportKeys true true keys = addPylake k0 := ⟨_, rfl⟩
+    generalize forExportKeys true true keys = k at h2 hk ⊢
+    obtain ⟨k0, rfl⟩ := hk
+    unfold forExportKeys
+    rw [h2]
+    simp only [Bool.false_eq_true, if_false]
+    exact addPylake_idem _
+  · have hd' : doAlignment req (alignStatus rgb keys) = false := by simpa using hd
+    have e1 : forExportKeys rgb req keys = addPylake keys := by
+      unfold forExportKeys; rw [hd']; rfl
+    rw [e1]
+    unfold forExportKeys
+    rw [status_addPylake, hd']
+    simp only [Bool.false_eq_true, if_false]
+    exact addPylake_idem _
+
+
+example : alignStatus true ["Camera".toList, c0Key, c1Key, c2Key] = .ready := by decide
+example : forExportKeys true true ["Camera".toList, c0Key, c1Key, c2Key] = ["Camera".toList, a0Key, a1Key, a2Key, pylakeKey] := by
+  decide
+/-- Not requested: the matrices stay "to be applied" (a later reader may still align). -/
+example : forExportKeys true false ["Camera".toList, c0Key, c1Key] = ["Camera".toList, c0Key, c1Key, pylakeKey] := by decide
+
 end Verif.C18
